@@ -5,12 +5,39 @@ ROOT = os.path.dirname(os.path.dirname(os.path.abspath(__file__)))
 
 # id -> (level text, level note, technique, design_ref)
 CLAIMED = {
+ "C01": ("PARTIAL proof. Lean theorems (C01_first_flight, C01_stale, C01_names) over the Conn model show that for every chunking and every read-buffer size the backend reads the reconstructed inner hello (or, when ECH is not accepted, the re-marshalled outer hello) followed by exactly the client's remaining bytes, and that the reported names are those of that hello; the HelloRetryRequest path is carried by the C06 theorems. That crypto/tls then completes the handshake, resumes, and authenticates retry configs is NOT modelled: it is observed by a real-stack campaign (crypto/tls client -> NewConn -> keyless crypto/tls backend / public-name server) whose recorded Conn.Read/Write traces are replayed op by op through the Lean model.",
+         "Lean kernel + propext/Quot.sound/Classical.choice; hand-written model tied to the Go code by the differential correspondence check; ideal HPKE (a payload opens iff that exact seal exists; table filled with crypto/hpke); crypto/tls, X.509 and the TLS key schedule are observed, not modelled.",
+         "Lean 4 proof (pipe invariants over op lists) + differential replay of real crypto/tls handshakes through the model", "5/C01"),
+ "C02": ("Lean theorems over the key loop with an ideal HPKE, for all hellos, key lists and HPKE worlds: acceptance implies a seal made to a held key whose config id and suite the client named, under info = \"tls ech\\0\"||config, the hello's enc, sequence number 0 (1 and the stored context for a retry), with the AAD of exactly this hello and exactly this payload (C02_accept_sound, C02_retry_sound); no such seal => never accepted (C02_no_seal_no_accept); NewConn has exactly three outcome shapes (C02_clean_fallback). The ideal-HPKE table is validated against the real AEAD by the campaign: every single-bit flip of the outer body of sample hellos, wrong key/info/suite/id substitutions, every truncation of enc and payload.",
+         "Lean kernel + propext/Quot.sound/Classical.choice; hand-written model tied to the Go code by the differential correspondence check; HPKE/X25519/HKDF/AEAD replaced by the ideal-HPKE hypothesis (standard symbolic reading of AEAD unforgeability), validated empirically against crypto/hpke and the package's own AEAD on every generated case.",
+         "Lean 4 proof (decision logic over an ideal HPKE) + differential correspondence", "5/C02"),
+ "C03": ("Lean theorems: the Appendix-B substitution loop returns exactly the referenced outer extensions in outer order, the references being in order / unrepeated / present / not ECH types (C03_expand_characterisation, C03_expand_sublist); the marker is replaced in place and nothing else moves (C03_expand_in_place); the reconstructed hello takes version/random/suites/compression from the decrypted encoding and the session id from the outer hello (C03_reconstruct_fields); its record is byte-exactly the canonical encoding of those fields (C03_marshal_exact); reported names are the inner hello's. Tie: every order-preserving subsequence x marker position for up to 8 shared extensions, padding and session-id grids, sizes to the record limit, each checked by the independent byte-level specInner evaluated in Lean on the implementation's output.",
+         "Lean kernel + propext/Quot.sound/Classical.choice; hand-written model tied to the Go code by the differential correspondence check; the byte-level specification specInner is evaluated on implementation outputs (not yet proved equal to the model for all inputs).",
+         "Lean 4 proof (refinement of the substitution loop to a declarative filter) + executable spec on impl outputs", "5/C03"),
+ "C04": ("Lean theorems: every failing NewConn writes exactly the fatal alert of the returned class, closes the transport and buffers nothing (C04_abort_effects); rule lemmas for ech_outer_extensions in the outer hello, ECH type inner with keys, unknown ECH type (any position), outer SNI != public name; errors propagate unchanged through the extension fold (C04_ext_error_propagates); an accepted inner hello satisfies every inner rule - parses, carries the inner-type ECH extension, zero padding, TLS 1.3, well-formed references (C04_accepted_inner_obeys_rules, with C03_expand_characterisation for the reference rules). Tie: every rule at every applicable position, rule pairs, every record-level truncation, truncations of the sealed inner encoding.",
+         "Lean kernel + propext/Quot.sound/Classical.choice; hand-written model tied to the Go code by the differential correspondence check; ideal HPKE for the authentic-payload rules.",
+         "Lean 4 proof (decision table + effect lemma) + differential correspondence with rule mutators", "5/C04"),
+ "C05": ("Lean theorems: for ANY buffer the parser accepts, re-marshalling yields exactly the ClientHello structure that was read - the input minus the bytes after the extensions and after the message, the only bytes the parser ignores (C05_passthrough_bytes, from the parse/marshal round-trip lemma); canonical hellos are forwarded verbatim up to the record-header version (C05_passthrough_canonical); decision lemmas for when a hello is passed through (no ECH / no keys / no TLS 1.3 / no matching key) and the resulting connection state (C05_passthrough_conn). Tie: foreign-encoded hellos x key sets x following streams; independent sniOf/alpnOf evaluated in Lean and crypto/tls's ClientHelloInfo compared on the forwarded bytes.",
+         "Lean kernel + propext/Quot.sound/Classical.choice; hand-written model tied to the Go code by the differential correspondence check; agreement of ServerName/ALPN with an independent stack is checked on generated hellos (Lean sniOf/alpnOf and crypto/tls), not proved.",
+         "Lean 4 proof (parser/marshaller round trip) + differential correspondence", "5/C05"),
+ "C06": ("Lean theorems over arbitrary interleavings of Read / Write / arriving data: the Conn invariant holds in every reachable state (C06_inv_all_reachable: retry>=1 only on accepted connections whose write side stopped inspecting; HPKE sequence number 1 after NewConn, 2 only once the read side is in passthrough; no HPKE state without an inner hello); only a ServerHello with the HelloRetryRequest random moves the retry counter (C06_only_hrr_rearms); a hello met with retry != 1 is never decrypted; at most one retry; each 7.1.1 rule with its alert class; an acceptable retried hello is replaced by its reconstructed inner hello with unchanged names. Tie: EXHAUSTIVE histories up to length 3 (quick) / 4 (thorough) over a 15-letter alphabet, against the model and an independent Go reference monitor.",
+         "Lean kernel + propext/Quot.sound/Classical.choice; hand-written model tied to the Go code by the differential correspondence check; ideal HPKE; goroutine interleaving of Read and Write modelled as an arbitrary op list (each call atomic).",
+         "Lean 4 proof (invariant by induction over op lists) + exhaustive bounded history enumeration as correspondence", "5/C06"),
+ "C07": ("Lean theorems for every chunking, buffer size, split and cut (the transport is an arbitrary chunk list; statements mention only its concatenation): any sequence of Reads is a lossless in-order pipe (C07_read_pipe, C07_chunking_independent); bytes before a cut are delivered before the transport's error (C07_cut_inspecting, C07_cut_passthrough); every successful Write sequence leaves the client with the whole concatenation minus at most one incomplete record and reports len(b) (C07_write_pipe, C07_write_pipe_run). The record limit in the model is the code's (2^14+256). Tie: all 2^11 chunkings of a tail, a boundary and an EOF/error cut at every offset, every two-way write split, all record lengths 0..16640 and the illegal 16641.",
+         "Lean kernel + propext/Quot.sound/Classical.choice; hand-written model tied to the Go code by the differential correspondence check; the single rewritten record of a retry is excluded from the pipe statement (covered by C06).",
+         "Lean 4 proof (pipe invariant by induction over op lists / fuel) + differential correspondence", "5/C07"),
+ "C08": ("PARTIAL proof. The model carries every Go index/slice/nil-dereference as an explicit panic outcome; Lean proves no panic in NewConn, Write, Read and in every run of any interleaving (C08_no_panic_*), progress of Read (never (0,nil)), and buffer bounds on both sides (C08_read_bound, C08_write_bound). Heap growth, wall-clock and the deadline behaviour under a stalling client are runtime facts: observed (stall at every byte offset under a 40 ms deadline; heap delta while draining 640 KB), not proved.",
+         "Lean kernel + propext/Quot.sound/Classical.choice; hand-written model tied to the Go code by the differential correspondence check; runtime memory and time are observed; NewConn-by-deadline relies on the transport honouring SetDeadline (see C10).",
+         "Lean 4 proof (totality of a panic-explicit model, invariants) + mutation streams as correspondence", "5/C08"),
+ "C09": ("Lean theorems over the key loop with an ideal HPKE: if every other key yields 'continue', any list containing the target at any position, with repetitions, behaves exactly like the target alone (C09_superset); a valid key the hello was not sealed to always continues, whatever its id/suites/name (first hello), and only the key that opened the first hello is tried on a retry; with no seal under any held key, never accepted (C09_converse). Tie: EXHAUSTIVE ordered key lists of length 1..3 (quick) / 1..4 (thorough) from a 6-key pool with colliding ids, first and retried hellos.",
+         "Lean kernel + propext/Quot.sound/Classical.choice; hand-written model tied to the Go code by the differential correspondence check; ideal HPKE; valid keys = private key parses for its KEM.",
+         "Lean 4 proof (list induction over the key loop, ideal HPKE) + exhaustive key-list enumeration as correspondence", "5/C09"),
  "C11": ("Lean 4 theorems over the model of config.go (round trip with arbitrary trailing bytes, list round trip, "
          "exact definedness condition of Bytes, rejection of every strict prefix, no over-read, well-formedness against an "
          "independent transcription of the draft section 4 grammar), for all ids / names / suites / keys; the model is tied "
          "to the code by a differential check that is exhaustive over ids 0..255 and name lengths 0..300 and runs every "
          "truncation, and crypto/tls client+server acceptance is observed by real handshakes.",
-         "Lean kernel + propext/Quot.sound/Classical.choice; hand-written model tied by differential testing; key generation abstracted; crypto/tls acceptance observed, not proved.",
+         "Lean kernel + propext/Quot.sound/Classical.choice; hand-written model tied to the Go code by the differential correspondence check; key generation abstracted; crypto/tls acceptance observed, not proved.",
          "Lean 4 proof (codec round-trip / inversion lemmas) + differential correspondence model<->Go", "5/C11"),
 }
 PENDING_REASON = "check not built yet in this round (work in progress; see DESIGN.md section 5 for the planned theorem and tie)"
